@@ -138,7 +138,7 @@ def _build(lines, rng, h, hashes, track, above):
 
 
 def gen_case(rng, flavour):
-    """flavour: 'small' | 'mid' | 'big' | 'incompat' | 'downsample' | 'num' | 'self'"""
+    """flavour: 'small' | 'mid' | 'big' | 'incompat' | 'downsample' | 'num' | 'self' | 'skew'"""
     lines = []
     is_num = flavour == "num" or (flavour in ("small", "mid", "incompat") and rng.random() < 0.2)
     k, seed, hf = 21, 42, 1
@@ -198,6 +198,12 @@ def gen_case(rng, flavour):
         nA, nB = rng.randint(400, hi), rng.randint(400, hi)
     elif flavour == "mid":
         nA, nB = rng.randint(0, 200), rng.randint(0, 200)
+    elif flavour == "skew":
+        # one sketch at least 8x the other, over a DENSE universe (see below): small-vs-large fast paths
+        nA = rng.randint(2, 7)
+        nB = rng.randint(8 * nA, 8 * nA + 60)
+        if rng.random() < 0.5:
+            nA, nB = nB, nA
     else:
         nA, nB = rng.choice([0, 0, 1, 2, 3, 5, 8, 13, 40]), rng.choice([0, 1, 1, 2, 3, 5, 8, 13, 40, 70])
     MA, MB = (mh_py(pa["sc"]) or U64), (mh_py(pb["sc"]) or U64)
@@ -208,6 +214,11 @@ def gen_case(rng, flavour):
     if flavour == "self":
         rel = "equal"
     base = _hashes(rng, nA + nB, Msafe, 0.05)
+    if flavour == "skew":
+        # neighbours in value order matter for skip-ahead intersection code: draw from a small dense range
+        universe = list(range(0, min(Msafe, 3 * (nA + nB) + 20)))
+        base = rng.sample(universe, min(len(universe), nA + nB))
+        rel = rng.choice(["overlap", "overlap", "overlap", "subset", "superset"])
     rng.shuffle(base)
     if rel == "equal":
         A = B = base[:max(nA, 1)]
